@@ -1318,7 +1318,22 @@ fn small_size() -> impl Strategy<Value = u32> {
 }
 
 fn parts() -> impl Strategy<Value = Vec<(u32, u16)>> {
-    proptest::collection::vec((any::<u32>(), prop_oneof![2 => Just(0u16), 5 => 1u16..100, 1 => 250u16..300]), 0..5)
+    prop_oneof![
+        6 => proptest::collection::vec((any::<u32>(), prop_oneof![2 => Just(0u16), 5 => 1u16..100, 1 => 250u16..300]), 0..5),
+        // Slices that touch in memory: a ring buffer handed over as [tail, head] (the second ends where
+        // the first begins), the same in forward order, and three in a row either way round.
+        // (offsets below 1 MiB are used as they are by `pool_slice`)
+        2 => (0u32..1_000_000, 1u16..300, 1u16..300).prop_map(|(off, a, b)| vec![(off + b as u32, a), (off, b)]),
+        1 => (0u32..1_000_000, 1u16..300, 1u16..300).prop_map(|(off, a, b)| vec![(off, a), (off + a as u32, b)]),
+        1 => (0u32..1_000_000, 1u16..100, 1u16..100, 1u16..100, any::<bool>()).prop_map(|(off, a, b, c, rev)| {
+            let v = vec![(off, a), (off + a as u32, b), (off + a as u32 + b as u32, c)];
+            if rev {
+                v.into_iter().rev().collect()
+            } else {
+                v
+            }
+        }),
+    ]
 }
 
 /// Operation mixes.
